@@ -3,3 +3,13 @@ import SparseV.Props.C03
 #print axioms SparseV.C03.normalize_axis_range
 #print axioms SparseV.C03.reduce_rejects_when_inadmissible
 #print axioms SparseV.C03.reduce_always_admissible
+#print axioms SparseV.C03.groupRuns_spec
+#print axioms SparseV.C03.reduceCore_rowReduce
+#print axioms SparseV.C03.rowReduce_add_get
+#print axioms SparseV.C03.rowReduce_max_get
+#print axioms SparseV.C03.rowReduce_min_get
+#print axioms SparseV.C03.reduceCore_none
+#print axioms SparseV.C03.reduce_add_get
+#print axioms SparseV.C03.reduce_max_get
+#print axioms SparseV.C03.reduce_min_get
+#print axioms SparseV.C03.reduce_src_spec
